@@ -1,0 +1,43 @@
+//go:build verif
+
+package wgsl
+
+import "github.com/gogpu/naga/wgsl/internal/parser"
+
+// VerifToken is a lexer token as seen by the verification harness.
+type VerifToken struct {
+	Kind     uint8
+	KindName string
+	Lexeme   string
+	Line     int
+	Column   int
+}
+
+// VerifTokens tokenizes source and returns every token (including EOF).
+func VerifTokens(source string) ([]VerifToken, error) {
+	toks, err := parser.NewLexer(source).Tokenize()
+	out := make([]VerifToken, len(toks))
+	for i, t := range toks {
+		out[i] = VerifToken{Kind: uint8(t.Kind), KindName: t.Kind.String(), Lexeme: t.Lexeme, Line: t.Line, Column: t.Column}
+	}
+	return out, err
+}
+
+// VerifAST returns the internal AST of a parsed module.
+func VerifAST(m *Module) *parser.Module { return m.inner }
+
+// VerifDependencyOrder applies parser.DependencyOrder to the module's declarations
+// and returns the permutation (indices into the original declaration list).
+func VerifDependencyOrder(m *Module) []int {
+	decls := m.inner.Declarations
+	idx := make(map[parser.Decl]int, len(decls))
+	for i, d := range decls {
+		idx[d] = i
+	}
+	sorted := parser.DependencyOrder(decls)
+	out := make([]int, len(sorted))
+	for i, d := range sorted {
+		out[i] = idx[d]
+	}
+	return out
+}
